@@ -51,7 +51,7 @@ func allowFromEnv() map[string]bool {
 	return m
 }
 
-var authPart = pbt.Part[authCase]{Name: "denied-fields-never-reach-client", Quick: 9000, Thorough: 180000, Check: checkAuth,
+var authPart = pbt.Part[authCase]{Name: "denied-fields-never-reach-client", Journal: true, Quick: 9000, Thorough: 180000, Check: checkAuth,
 	Gen: func(t *rapid.T) authCase {
 		l := fedgen.Gen(t, fedgen.Options{Allow: allowFromEnv(), NoRequires: !allowFromEnv()["requires"]})
 		super, err := sim.LoadSuper(l.Super)
